@@ -213,6 +213,23 @@ CLAIMED = {
    note="Trusted: Coq kernel+vm_compute; PyYAML/pydantic as identities on the tree; jsonschema; the translators. Known findings C13-K1 "
         "(error domains through @extern), C13-K2 (records extended in a target).",
    technique="Coq round-trip proof + finite attribute inventories over the regenerated templates/AST scan + vm_compute correspondence + metamorphic local-vs-extern comparison", design="7/C13"),
+ 'C10': dict(
+   text="Hash-seed freedom: every attribute annotated as a set anywhere in pydjinni (AST scan, REGENERATED each run) reaches the 69 translated "
+        "templates only through order-insensitive uses (| sort, | length, in / not in, truth value) - finite theorem over the regenerated "
+        "templates - and every loop over such an attribute uses sort(case_sensitive=True); Jinja's sort (stable insertion sort on the key, "
+        "as in the TIR interpreter) is proved to be a function of the SET of items: for all permutations of a duplicate-free list the "
+        "sorted sequence is the same (strict total order on strings: irreflexive, transitive, trichotomous; sorted permutations are "
+        "equal); with the default case-folded key only when no two items fold to the same key - refuted otherwise with a witness, which "
+        "was a real defect (repaired in 6729cee). History and target-order freedom in the writer model: the content of a path after ANY "
+        "operation history is the last write to it, so what the final generation writes does not depend on earlier parses/generations, "
+        "and targets writing disjoint paths commute; refuted for shared paths (witness) and for the processed-files report (accumulates). "
+        "Tie: M-determinism runs every generated program (valid, rule-violating, doc-command-rich, names differing only in case under "
+        "identity styles) in separate processes under 4 (thorough 8) PYTHONHASHSEED values, and on one API object after an unrelated "
+        "parse+generate, after a re-parse, with permuted targets, and one target at a time; sha256 of every file and the diagnostics "
+        "are compared with the fresh run.",
+   note="Trusted: Coq kernel+vm_compute; translators (templates, set-attribute scan); the TIR interpreter's sort as model of Jinja's (K-jinja); "
+        "CPython's hash randomisation as the only source of set order. One defect repaired (6729cee).",
+   technique="Coq order-theoretic proof (sorting a permutation) + finite static theorems over regenerated templates + writer-model proofs + metamorphic multi-process correspondence", design="7/C10"),
 }
 PENDING_REASON = "check not built yet in this session (work in progress; see DESIGN.md section 10 build order)"
 HOOK_COMMITS = []
